@@ -37,6 +37,7 @@
 #include <xalanc/Include/XalanVector.hpp>
 #include <xalanc/Include/XalanList.hpp>
 #include <xalanc/Include/XalanDeque.hpp>
+#include <xalanc/Include/XalanMap.hpp>
 #include <xalanc/Include/XalanMemMgrAutoPtr.hpp>
 #include <xalanc/PlatformSupport/ArenaBlockBase.hpp>
 #include <xalanc/PlatformSupport/ReusableArenaBlock.hpp>
@@ -90,6 +91,7 @@ namespace XALAN_CPP_NAMESPACE
 struct Boxed
 {
     long v; void* blk; xercesc::MemoryManager* mm;
+    explicit Boxed(xercesc::MemoryManager& m) : v(0), blk(0), mm(&m) {}     // default construction with a manager: empty, like a string
     Boxed(long x, xercesc::MemoryManager& m) : v(x), blk(m.allocate(8)), mm(&m) {}
     Boxed(const Boxed& o, xercesc::MemoryManager& m) : v(o.v), blk(m.allocate(8)), mm(&m) {}
     ~Boxed() { if (blk) mm->deallocate(blk); }
@@ -127,6 +129,9 @@ struct PeekList : public BList
 typedef ReusableArenaBlock<Boxed, unsigned short> RBlock;
 typedef XalanDeque<long> LDeque;
 typedef XalanVector<Boxed> BVec;
+typedef XalanDeque<Boxed> BDeque;
+typedef XalanMap<int, long> IMap;
+typedef XalanMap<int, Boxed> BMap;
 typedef ReusableArenaAllocator<Boxed> RAlloc;
 
 struct PeekBlock : public RBlock
@@ -161,6 +166,10 @@ struct State
     std::vector<bool> isObj;
     LDeque* deque = 0;
     BVec* bvec = 0;
+    LDeque* dql = 0;
+    BDeque* dqb = 0;
+    IMap* map = 0;
+    BMap* bmap = 0;
     RAlloc* ra = 0;
     std::vector<Boxed*> raObjs;          // objects in creation order (0 = destroyed)
     FaultManager* fm = 0;
@@ -177,6 +186,7 @@ struct State
         arena = 0; isObj.clear();
         deque = 0;
         bvec = new BVec(*fm);
+        map = 0; bmap = 0; dql = 0; dqb = 0;
         ra = 0; raObjs.clear();
         ap[0].release(); ap[1].release(); loose.clear();      // abandoned with their manager
     }
@@ -240,6 +250,120 @@ static std::string showRA(State& s)
             o << "] ";
         }
     return o.str();
+}
+
+static std::string showMap(State& s)
+{
+    std::ostringstream o;
+    size_t bcap = 0;
+    for (size_t i = 0; i < s.map->m_buckets.size(); ++i) bcap += s.map->m_buckets[i].capacity();
+    size_t nfree = 0;
+    if (s.map->m_freeEntries.m_listHead != 0)
+        for (IMap::EntryListType::iterator i = s.map->m_freeEntries.begin(); i != s.map->m_freeEntries.end(); ++i) ++nfree;
+    o << "size=" << s.map->size() << " buckets=" << s.map->m_buckets.size() << " bcap=" << bcap << " free=" << nfree << " :";
+    if (s.map->m_entries.m_listHead != 0)
+        for (IMap::EntryListType::iterator i = s.map->m_entries.begin(); i != s.map->m_entries.end(); ++i)
+            o << " " << i->value->first << "=" << i->value->second;
+    return o.str();
+}
+
+static long valOf(long x) { return x; }
+static long valOf(const Boxed& b) { return b.v; }
+
+template <class D>
+static std::string showDq(D& d)
+{
+    std::ostringstream o;
+    size_t n = 0;
+    bool lastNull = !d.m_blockIndex.empty() && d.m_blockIndex.back() == 0;
+    if (!lastNull) n = d.size();
+    o << "size=" << n << " idx=" << d.m_blockIndex.size() << " free=" << d.m_freeBlockVector.size() << " :";
+    for (size_t b = 0; b < d.m_blockIndex.size(); ++b)
+    {
+        typename D::BlockType* blk = d.m_blockIndex[b];
+        if (blk == 0) continue;
+        for (size_t i = 0; i < blk->size(); ++i) o << " " << valOf((*blk)[i]);
+    }
+    return o.str();
+}
+
+static void pushDq(LDeque& d, long x) { d.push_back(x); }
+static void pushDq(BDeque& d, long x) { Boxed t(x, g_plain); d.push_back(t); }
+
+// one operation; `out` is set to "ub" when the real template was observed (in a child) not to survive it
+template <class D>
+static bool doDq(D*& d, FaultManager* fm, const std::string& b, long x, std::string& out, std::string& shown)
+{
+    if (b == "new") { d = new D(*fm, 0, size_t(x)); }
+    else if (d == 0) return false;
+    else if (b == "push")
+    {
+        bool pending = fm->failAt > fm->reqs;
+        D* dp = d;
+        if (pending && !survives([dp, fm, x]() { long b0 = fm->bad; try { pushDq(*dp, x); } catch (const Refused&) {} if (fm->bad != b0) _exit(9); })) out = "ub";
+        else pushDq(*d, x);
+    }
+    else if (b == "pop")
+    {
+        if (d->m_blockIndex.empty()) out = "ub";                       // pop_back() on an empty deque: caller error
+        else
+        {
+            D* dp = d;
+            // an empty block at the end of the index (left by a refused element copy / free-vector growth): does pop_back survive it?
+            if ((d->m_blockIndex.back() == 0 || d->m_blockIndex.back()->empty() || fm->failAt > fm->reqs) &&
+                !survives([dp, fm]() { long b0 = fm->bad; try { dp->pop_back(); } catch (const Refused&) {} if (fm->bad != b0) _exit(9); })) out = "ub";
+            else if (d->m_blockIndex.back() != 0 && d->m_blockIndex.back()->empty()) out = "ub";   // survived by luck (size_t wrap): still undefined
+            else d->pop_back();
+        }
+    }
+    else if (b == "clear")
+    {
+        D* dp = d;
+        if (fm->failAt > fm->reqs && !survives([dp, fm]() { long b0 = fm->bad; try { dp->clear(); } catch (const Refused&) {} if (fm->bad != b0) _exit(9); })) out = "ub";
+        else d->clear();
+    }
+    else if (b == "destroy")
+    {
+        D* dp = d;
+        if (!survives([dp, fm]() { long b0 = fm->bad; delete dp; if (fm->bad != b0) _exit(9); })) out = "ub";
+        else { delete d; d = 0; shown = "destroyed"; return true; }
+    }
+    else return false;
+    shown = d ? showDq(*d) : std::string("");
+    return true;
+}
+
+static std::string showBMap(State& s)
+{
+    std::ostringstream o;
+    size_t bcap = 0;
+    for (size_t i = 0; i < s.bmap->m_buckets.size(); ++i) bcap += s.bmap->m_buckets[i].capacity();
+    size_t nfree = 0;
+    if (s.bmap->m_freeEntries.m_listHead != 0)
+        for (BMap::EntryListType::iterator i = s.bmap->m_freeEntries.begin(); i != s.bmap->m_freeEntries.end(); ++i) ++nfree;
+    o << "size=" << s.bmap->size() << " buckets=" << s.bmap->m_buckets.size() << " bcap=" << bcap << " free=" << nfree << " :";
+    if (s.bmap->m_entries.m_listHead != 0)
+        for (BMap::EntryListType::iterator i = s.bmap->m_entries.begin(); i != s.bmap->m_entries.end(); ++i)
+            o << " " << i->value->first << "=" << i->value->second.v;
+    return o.str();
+}
+
+static bool doBMap(State& s, const std::string& b, long x, long y)
+{
+    if (b == "ins") { Boxed t(y, g_plain); s.bmap->insert(int(x), t); }
+    else if (b == "erase") s.bmap->erase(int(x));
+    else if (b == "clear") s.bmap->clear();
+    else return false;
+    return true;
+}
+
+static bool doMap(State& s, const std::string& b, long x, long y)
+{
+    if (b == "ins") s.map->insert(int(x), y);
+    else if (b == "erase") s.map->erase(int(x));
+    else if (b == "clear") s.map->clear();
+    else return false;
+    return true;
 }
 
 static std::string showBVec(State& s)
@@ -463,6 +587,105 @@ int main()
                 if (out == "ub") dead = true;
                 std::cout << tail(s, out, showRA(s)) << "\n";
             }
+            else if (a == "m")
+            {
+                long y = 0; in >> y;
+                if (b == "new") { s.map = new IMap(*s.fm, 0.75, size_t(x), 100000); }
+                else if (s.map == 0) { std::cout << "bad\n"; continue; }
+                else if (b == "find")
+                {
+                    const IMap& cm = *s.map;
+                    IMap::const_iterator i = cm.find(int(x));
+                    std::ostringstream o;
+                    if (i == cm.end()) o << "none"; else o << "found " << (*i).second;
+                    std::cout << tail(s, out, o.str()) << "\n";
+                    continue;
+                }
+                else if (b == "destroy")
+                {
+                    IMap* m = s.map; FaultManager* fm = s.fm;
+                    if (!survives([m, fm]() { long b0 = fm->bad; delete m; if (fm->bad != b0) _exit(9); })) out = "ub";
+                    else
+                    {
+                        delete s.map; s.map = 0;
+                        std::cout << tail(s, out, "destroyed") << "\n";
+                        continue;
+                    }
+                }
+                else
+                {
+                    State* sp = &s;
+                    bool pending = s.fm->failAt > s.fm->reqs;
+                    if (pending && !survives([sp, b, x, y]() { long b0 = sp->fm->bad; try { doMap(*sp, b, x, y); } catch (const Refused&) {} if (sp->fm->bad != b0) _exit(9); }))
+                        out = "ub";
+                    else
+                    {
+                        long b0 = s.fm->bad;
+                        if (!doMap(s, b, x, y)) out = "bad";
+                        else if (s.fm->bad != b0) out = "ub";
+                    }
+                }
+                if (out == "ub") dead = true;
+                std::cout << tail(s, out, showMap(s)) << "\n";
+            }
+            else if (a == "dql" || a == "dqb")
+            {
+                std::string shown;
+                bool ok2;
+                try
+                {
+                    ok2 = a == "dql" ? doDq(s.dql, s.fm, b, x, out, shown) : doDq(s.dqb, s.fm, b, x, out, shown);
+                }
+                catch (const Refused&)
+                {
+                    out = "oom"; ok2 = true;
+                    shown = a == "dql" ? (s.dql ? showDq(*s.dql) : std::string("")) : (s.dqb ? showDq(*s.dqb) : std::string(""));
+                }
+                if (!ok2) { std::cout << "bad\n"; continue; }
+                if (out == "ub") dead = true;
+                std::cout << tail(s, out, shown) << "\n";
+            }
+            else if (a == "mb")
+            {
+                long y = 0; in >> y;
+                if (b == "new") { s.bmap = new BMap(*s.fm, 0.75, size_t(x), 100000); }
+                else if (s.bmap == 0) { std::cout << "bad\n"; continue; }
+                else if (b == "find")
+                {
+                    const BMap& cm = *s.bmap;
+                    BMap::const_iterator i = cm.find(int(x));
+                    std::ostringstream o;
+                    if (i == cm.end()) o << "none"; else o << "found " << (*i).second.v;
+                    std::cout << tail(s, out, o.str()) << "\n";
+                    continue;
+                }
+                else if (b == "destroy")
+                {
+                    BMap* m = s.bmap; FaultManager* fm = s.fm;
+                    if (!survives([m, fm]() { long b0 = fm->bad; delete m; if (fm->bad != b0) _exit(9); })) out = "ub";
+                    else
+                    {
+                        delete s.bmap; s.bmap = 0;
+                        std::cout << tail(s, out, "destroyed") << "\n";
+                        continue;
+                    }
+                }
+                else
+                {
+                    State* sp = &s;
+                    bool pending = s.fm->failAt > s.fm->reqs;
+                    if (pending && !survives([sp, b, x, y]() { long b0 = sp->fm->bad; try { doBMap(*sp, b, x, y); } catch (const Refused&) {} if (sp->fm->bad != b0) _exit(9); }))
+                        out = "ub";
+                    else
+                    {
+                        long b0 = s.fm->bad;
+                        if (!doBMap(s, b, x, y)) out = "bad";
+                        else if (s.fm->bad != b0) out = "ub";       // a stale value destroyed again: undefined, observed as a double free
+                    }
+                }
+                if (out == "ub") dead = true;
+                std::cout << tail(s, out, showBMap(s)) << "\n";
+            }
             else if (a == "bv")
             {
                 long y = 0; in >> y;
@@ -557,7 +780,7 @@ int main()
         }
         catch (const Refused&)
         {
-            std::cout << tail(s, "oom", a == "l" ? showList(s) : a == "a" ? (s.arena ? showArena(s, false) : std::string("none")) : a == "d" ? showDeque(s) : a == "bv" ? showBVec(s) : a == "ra" ? (s.ra ? showRA(s) : std::string("")) : a == "ap" ? showAP(s) : showVec(s)) << "\n";
+            std::cout << tail(s, "oom", a == "l" ? showList(s) : a == "a" ? (s.arena ? showArena(s, false) : std::string("none")) : a == "d" ? showDeque(s) : a == "bv" ? showBVec(s) : a == "ra" ? (s.ra ? showRA(s) : std::string("")) : a == "ap" ? showAP(s) : a == "m" ? (s.map ? showMap(s) : std::string("")) : a == "mb" ? (s.bmap ? showBMap(s) : std::string("")) : showVec(s)) << "\n";
         }
     }
     return 0;
